@@ -83,7 +83,7 @@ func mdLinkTail(r *rand.Rand) string {
 }
 
 var mdEntities = []string{"&amp;", "&lt;", "&gt;", "&apos;", "&nbsp;", "&NewLine;", "&Tab;",
-	"&#35;", "&#x41;", "&#X3c;", "&#42;", "&#95;", "&#96;", "&#91;", "&#32;", "&#10;", "&#1234;", "&#x10FFFF;",
+	"&#0;", "&#x0;", "&#35;", "&#x41;", "&#X3c;", "&#42;", "&#95;", "&#96;", "&#91;", "&#32;", "&#10;", "&#1234;", "&#x10FFFF;",
 	"&#xD800;", "&#1114112;", "&#9999999;", "&#xFFFFFF;",
 	"&#12345678;", "&#;", "&#x;", "&#xg;", "&amp", "&", "& ", "&xyzzy;", "&a1b2;", "&#35", "&#x41"}
 
